@@ -68,8 +68,13 @@ class History:
         if change is None:
             change = self.undo_list[-1]
         dependencies = self._find_dependencies(self.undo_list, change)
+        original_order = list(self.undo_list)
         self._move_front(self.undo_list, dependencies)
-        self._perform_undos(len(dependencies), task_handle)
+        try:
+            self._perform_undos(len(dependencies), task_handle)
+        except Exception:
+            self._restore_order(self.undo_list, original_order)
+            raise
         result = self.redo_list[-len(dependencies) :]
         if drop:
             del self.redo_list[-len(dependencies) :]
@@ -90,14 +95,23 @@ class History:
         if change is None:
             change = self.redo_list[-1]
         dependencies = self._find_dependencies(self.redo_list, change)
+        original_order = list(self.redo_list)
         self._move_front(self.redo_list, dependencies)
-        self._perform_redos(len(dependencies), task_handle)
+        try:
+            self._perform_redos(len(dependencies), task_handle)
+        except Exception:
+            self._restore_order(self.redo_list, original_order)
+            raise
         return self.undo_list[-len(dependencies) :]
 
     def _move_front(self, change_list, changes):
         for change in changes:
             change_list.remove(change)
             change_list.append(change)
+
+    def _restore_order(self, change_list, original_order):
+        # a failed undo/redo must not leave the remaining changes reordered
+        change_list.sort(key=original_order.index)
 
     def _find_dependencies(self, change_list, change):
         index = change_list.index(change)
